@@ -25,9 +25,9 @@ Definition ep_sites (sites : list site) (e : entry_point) : list site :=
 Definition part_names : list str := [s2l "settings.xml"; s2l "meta.xml"; s2l "content.xml"; s2l "styles.xml"].
 Definition parts_under (m : manifest) (folder : str) : list str :=
   filter (in_manifest m) (map (fun n => folder ++ n) part_names).
-Definition load_reads (m : manifest) : list str :=
+Definition load_reads (foreign : str -> bool) (m : manifest) : list str :=
   sMANIFEST :: parts_under m [] ++
-  flat_map (fun e => match classify m (fst e) with IsObject => parts_under m (fst e) | _ => [] end) m.
+  flat_map (fun e => match classify foreign m (fst e) with IsObject => parts_under m (fst e) | _ => [] end) m.
 
 Section Parsers.
   Variable xdoc : Type.
